@@ -41,6 +41,15 @@ def cases(tier, seed):
                 for i, t in enumerate(trees):
                     mm = cm.with_ctc(mm, t, name='c%d' % (i + 1))
                 yield ('E', mm)
+    from . import families
+    for m in families.models(11):
+        yield ('E', m)
+    F, R, M = sh.F, sh.R, sh.M
+    for (g1, g2) in ((('a, b', 'c'), ('a', 'b, c')), (('a b', 'c'), ('a', 'b c')), (('ab', 'c'), ('a', 'bc')), (('a,b', 'c'), ('a', 'b,c')),
+                     (('Slot1', 'Slot01'), ('Slot001', 'Slot10')), (('v2.0', 'v2.00'), ('v02.0', 'x')), (('A1', 'a1'), ('A01', 'a01'))):
+        for card in ((1, 1), (0, 1), (1, 2)):
+            yield ('E', M(F('Fa', [R(card[0], card[1], [F(n) for n in g1]), R(card[0], card[1], [F(n) for n in g2])])))
+    yield ('E', M(F('Fa', [R(1, 3, [F('Slot1'), F('Slot01'), F('Slot001')]), R(0, 1, [F('Slot2')]), R(0, 1, [F('Slot02')])])))
     # all of K_1 as the single constraint of one carrier (operator/operand edits on every shape)
     for t in cm.k1():
         yield ('E', cm.on_carrier([t]))
